@@ -37,10 +37,20 @@ def run_case(ctx, res, spec, lines, post):
         system.train_history.append(r)
         snap = {c.name: ic.canon_state(c) for c in system.components if c.has_surrogate}
         ready = all(len(c.active_set) > 0 for c in system.components if c.has_surrogate)
-        pred = None
-        if ready:
+        # also before every component is initialised: the live system then returns NaN for the affected outputs, and so
+        # must a prediction with the replayed (still empty) structures
+        try:
             pred = {m: {k: np.asarray(v).copy() for k, v in system.predict(xtest, index_set=m).items()}
                     for m in ('train', 'test')}
+            if not ready:
+                res.hit('snapshot-before-all-components-initialised')
+        except Exception:  # noqa: BLE001
+            if ready:
+                raise
+            # the LIVE system cannot predict yet (e.g. a vectorised surrogate-less component called with zero valid
+            # samples): nothing to compare a replayed prediction with at this iteration
+            pred = None
+            res.hit('live-predict-raised-before-all-components-initialised')
         snaps.append((snap, pred))
     surr = [c for c in system.components if c.has_surrogate]
     info = {'spec': spec, 'update_bounds': update_bounds, 'steps': len(snaps)}
